@@ -4,7 +4,7 @@ import ast
 
 from .. import AnalysisError
 from ..cfg import ALL_KINDS, NORMAL_KINDS, iter_own
-from ..lib import attr_stores, dominated_by, guard_forms, key_of, norm, render, type_is
+from ..lib import iteration_paths, attr_stores, dominated_by, guard_forms, key_of, norm, render, type_is
 from ..report import describe, rule
 
 P = "C17"
@@ -83,15 +83,34 @@ def c17_1(ctx, r):
     jv = emitted.get("jobs")
     r.check(jv is not None and ctx.src(jv).replace(" ", "") == "[x.serialize()forxinself.iter_jobs()]", "jobs are emitted in iteration order, unfiltered", key_of(ser, "jobs emission"), ser.loc(), f"jobs = {ctx.src(jv) if jv is not None else None}", "the same jobs in the same order")
     dj = cls.methods["_deserialize_jobs"]
-    loops = [n for n in iter_own(dj.node) if isinstance(n, ast.For)]
-    okd = len(loops) == 1 and ctx.src(loops[0].iter) == "jobs" and not any(isinstance(x, (ast.If, ast.Continue, ast.Break, ast.Try)) for x in ast.walk(loops[0])) and "self.add_job(job)" in ctx.src(loops[0])
-    r.check(okd, "jobs are re-added in file order, unconditionally", key_of(dj, "jobs load"), dj.loc(), "_deserialize_jobs skips or reorders jobs", "the same jobs in the same order")
-    okc = any(isinstance(n, ast.If) and ctx.src(n.test).replace("'", '"') == '"jobs" in kwargs' and "self._deserialize_jobs(kwargs" in ctx.src(n) for n in iter_own(init.node))
+    loops = [n for n in dj.node.body if isinstance(n, ast.For)]
+    jparam = [p for p in dj.params if p != "self"][0]
+    adds = [n for s2 in ctx.sites(dj, name="add_job") for n in ctx.nodes_of(dj, s2.node)]
+    okd = len(loops) == 1 and isinstance(loops[0].iter, ast.Name) and loops[0].iter.id == jparam and bool(adds)
+    skipped = []
+    if okd:
+        skipped = [(end, sorted(("" if p2 else "not ") + f for f, p2 in conds)) for end, conds, last in iteration_paths(ctx, dj, loops[0], avoid=adds)]
+        # the object added is the one deserialised from this iteration's entry
+        for s2 in ctx.sites(dj, name="add_job"):
+            a0 = s2.node.args[0] if s2.node.args else None
+            for n in ctx.nodes_of(dj, s2.node):
+                e = ctx.guards(dj).expand(a0, n) if isinstance(a0, ast.Name) else a0
+                okd = okd and isinstance(e, ast.Call) and isinstance(e.func, ast.Attribute) and e.func.attr == "deserialize" and any(isinstance(x, ast.Name) and x.id == ctx.src(loops[0].target) for x in ast.walk(e))
+    r.check(okd and not skipped, "jobs are re-added in file order, unconditionally", key_of(dj, "jobs load"), dj.loc(), f"_deserialize_jobs skips or reorders jobs (paths around add_job: {skipped})", "the same jobs in the same order")
+    okc = False
+    for s2 in ctx.sites(init, short=f"{JC}._deserialize_jobs"):
+        a0 = s2.node.args[0] if s2.node.args else None
+        for n in ctx.nodes_of(init, s2.node):
+            e = ctx.guards(init).expand(a0, n) if isinstance(a0, ast.Name) else a0
+            src_ok = isinstance(e, ast.Subscript) and ctx.src(e.value) == "kwargs" and isinstance(e.slice, ast.Constant) and e.slice.value == "jobs"
+            forms = guard_forms(ctx, init, n)
+            okc = src_ok and any(p2 and f.replace('"', "'") == "'jobs' in kwargs" for f, p2 in forms)
     r.check(okc, "the constructor loads kwargs['jobs']", key_of(init, "jobs key"), init.loc(), "the constructor no longer deserialises kwargs['jobs']")
     # container keeps insertion order and serialises every job
     cn = ctx.cls("JobContainerByName", "C17.1")
     it = cn.methods["__iter__"]
-    r.check("self._jobs.values()" in ctx.src(it.node), "the container iterates in insertion order (dict)", key_of(it, "order"), it.loc(), "JobContainerByName.__iter__ no longer iterates the dict's values")
+    srcs = [render(ctx, it, n.iter) for n in iter_own(it.node) if isinstance(n, (ast.For, ast.comprehension))] + [render(ctx, it, n.value) for n in iter_own(it.node) if isinstance(n, (ast.YieldFrom, ast.Return)) and n.value is not None]
+    r.check(any(x.replace("iter(", "").rstrip(")") in ("<JobContainerByName._jobs>.values(", "<JobContainerByName._jobs>.values()") or x in ("<JobContainerByName._jobs>.values()", "iter(<JobContainerByName._jobs>.values())") for x in srcs), "the container iterates in insertion order (dict values)", key_of(it, "order"), it.loc(), f"JobContainerByName.__iter__ iterates {srcs}, not the dict's values in insertion order")
     # subclasses' _serialize add only keys the constructor accepts
     for sub in ctx.ix.subclasses(cls, strict=True):
         m = sub.methods.get("_serialize")
@@ -105,9 +124,26 @@ def c17_1(ctx, r):
                 r.check(k in named or k in kw_reads or k in acc or k in METADATA, f"{sub.name}: extra key '{k}' is accepted on load", key_of(m, f"extra key {k}"), m.loc(n), f"{sub.name}._serialize writes '{k}', which no constructor reads")
     # deserialize: cls(**data)
     de = cls.methods["deserialize"]
-    r.check("return cls(**data)" in ctx.src(de.node), "deserialize passes every key to the constructor", key_of(de, "cls(**data)"), de.loc(), "deserialize no longer calls cls(**data)")
+    rets = [n for n in ctx.cfg(de).nodes if n.kind == "stmt" and isinstance(n.ast, ast.Return)]
+    okde = bool(rets)
+    for n in rets:
+        v = n.ast.value
+        v = ctx.guards(de).expand(v, n) if isinstance(v, ast.Name) else v
+        okde = okde and isinstance(v, ast.Call) and isinstance(v.func, ast.Name) and v.func.id == "cls" and not v.args and len(v.keywords) == 1 and v.keywords[0].arg is None
+        if okde:
+            dv = v.keywords[0].value
+            defs = {ctx.src(ctx.rd(de).defs_at[d].get(dv.id)) for d in ctx.rd(de).reaching(n, dv.id) if isinstance(ctx.rd(de).defs_at[d].get(dv.id), ast.AST)} if isinstance(dv, ast.Name) else set()
+            okde = bool(defs) and all(x.startswith("load_data(") or x in de.params for x in defs)
+    r.check(okde, "deserialize passes every loaded key to the constructor", key_of(de, "cls(**data)"), de.loc(), "deserialize no longer returns cls(**<the loaded data>)")
     dump = cls.methods["_dump"]
-    r.check("data = self.serialize()" in ctx.src(dump.node) and "json.dump(data, stream" in ctx.src(dump.node), "dump writes serialize() as JSON", key_of(dump, "dump"), dump.loc(), "_dump no longer writes serialize() with json.dump")
+    okdump = False
+    for n in ctx.cfg(dump).nodes:
+        for c in ctx.cfg(dump).calls_at(n):
+            if ctx.src(c.func) == "json.dump" and len(c.args) >= 2:
+                a0 = ctx.guards(dump).expand(c.args[0], n) if isinstance(c.args[0], ast.Name) else c.args[0]
+                site = ctx.cg.site_of(dump, a0) if isinstance(a0, ast.Call) else None
+                okdump = site is not None and site.calls_short(ctx.ix, f"{JC}.serialize") and ctx.src(c.args[1]) in dump.params
+    r.check(okdump, "dump writes serialize() as JSON to the given stream", key_of(dump, "dump"), dump.loc(), "_dump no longer writes self.serialize() with json.dump to its stream")
     sg = emitted.get("submission_groups")
     r.check(sg is not None and ctx.src(sg).replace(" ", "") == "[x.dict()forxinself.submission_groups]", "groups are emitted in order as dicts", key_of(ser, "groups emission"), ser.loc(), f"submission_groups = {ctx.src(sg) if sg is not None else None}")
     okg = any(isinstance(n, ast.Assign) and ctx.src(n.targets[0]) == "self._submission_groups" and ctx.src(n.value).replace(" ", "") == "[SubmissionGroup(**x)forxinsubmission_groupsor[]]" for n in iter_own(init.node))
@@ -177,9 +213,13 @@ def c17_2(ctx, r):
             rets = [x for x in iter_own(sp.node) if isinstance(x, ast.Return)]
             r.check(all(ctx.src(x.value) in ("data", "super().dict(*args, **kwargs)") for x in rets), "SubmitterParams.dict drops nothing", key_of(sp, "dict shape"), sp.loc(), "SubmitterParams.dict has an unrecognised shape")
     gp = ctx.fn("GenericCommandParameters.serialize", "C17.2")
-    r.check("return self._model.dict()" in ctx.src(gp.node), "a job serialises as its model's dict()", key_of(gp, "serialize"), gp.loc(), "GenericCommandParameters.serialize changed")
+    from ..lib import only_return
+
+    rx = only_return(ctx, gp)
+    r.check(rx is not None and ctx.src(rx) == "self._model.dict()", "a job serialises as its model's dict()", key_of(gp, "serialize"), gp.loc(), f"GenericCommandParameters.serialize returns `{ctx.src(rx) if rx is not None else None}`")
     gd = ctx.fn("GenericCommandParameters.deserialize", "C17.2")
-    r.check("return cls(**data)" in ctx.src(gd.node), "and is rebuilt from that dict", key_of(gd, "deserialize"), gd.loc(), "GenericCommandParameters.deserialize changed")
+    rx2 = only_return(ctx, gd)
+    r.check(rx2 is not None and isinstance(rx2, ast.Call) and ctx.src(rx2.func) == "cls" and len(rx2.keywords) == 1 and rx2.keywords[0].arg is None and ctx.src(rx2.keywords[0].value) in gd.params, "and is rebuilt from that dict", key_of(gd, "deserialize"), gd.loc(), f"GenericCommandParameters.deserialize returns `{ctx.src(rx2) if rx2 is not None else None}`")
 
 
 @rule(P, "C17.3", "T2", "run_checks() precedes the config dump, the cluster state and every hand-off / launch", min_obligations=4)
@@ -233,9 +273,32 @@ def c17_4(ctx, r):
         r.check(bool(hits), what, key_of(fn, key), fn.loc(), f"{fn.short} has no `raise InvalidConfiguration` under the condition for: {what}", clause)
 
     cd = ctx.fn(f"{JC}.check_job_dependencies", "C17.4")
-    raises_under(cd, lambda f, p: p and ("difference(job_names)" in f.replace(" ", "") or f == "missing_jobs"), "a blocker that names no job raises", "unknown blocker check", "a dependency on a nonexistent job")
-    src = ctx.src(cd.node).replace(" ", "")
-    r.check("job_names.add(job.name)" in src and "blocking_jobs.update(job.get_blocking_jobs())" in src and "forjobinself.iter_jobs()" in src, "all names and all blockers of all jobs are compared", key_of(cd, "domain"), cd.loc(), "check_job_dependencies no longer collects every job's name and blockers")
+    # the raise is guarded by a non-empty (blockers - names); both sets are filled from every job, unconditionally
+    import re as _re
+
+    def all_jobs_loop(fn, lp):
+        site = ctx.cg.site_of(fn, lp.iter) if isinstance(lp.iter, ast.Call) else None
+        return site is not None and site.calls_short(ctx.ix, f"{JC}.iter_jobs") and not lp.iter.args and not lp.iter.keywords
+
+    dep = None
+    for n in ctx.cfg(cd).nodes:
+        if n.kind == "stmt" and isinstance(n.ast, ast.Raise) and "InvalidConfiguration" in ctx.src(n.ast):
+            for f, p in guard_forms(ctx, cd, n):
+                m = _re.fullmatch(r"(\w+)\.difference\((\w+)\)", f.replace(" ", "")) or _re.fullmatch(r"\((\w+)-(\w+)\)", f.replace(" ", ""))
+                if p and m:
+                    dep = (m.group(1), m.group(2))
+    r.check(dep is not None, "a blocker that names no job raises", key_of(cd, "unknown blocker check"), cd.loc(), f"{cd.short} has no `raise InvalidConfiguration` under a non-empty (blockers - names)", "a dependency on a nonexistent job")
+    if dep is not None:
+        bset, nset = dep
+        okdom = False
+        for lp in [x for x in iter_own(cd.node) if isinstance(x, ast.For) and all_jobs_loop(cd, x)]:
+            v = ctx.src(lp.target)
+            adds = [c for c in ast.walk(lp) if isinstance(c, ast.Call) and isinstance(c.func, ast.Attribute) and ctx.src(c.func.value) == nset and c.func.attr == "add" and c.args and ctx.src(c.args[0]) == f"{v}.name"]
+            upds = [c for c in ast.walk(lp) if isinstance(c, ast.Call) and isinstance(c.func, ast.Attribute) and ctx.src(c.func.value) == bset and c.func.attr == "update" and c.args and ctx.src(c.args[0]) == f"{v}.get_blocking_jobs()"]
+            if adds and upds:
+                nodes = [x for c in adds + upds for x in ctx.nodes_of(cd, c)]
+                okdom = all(not guard_forms(ctx, cd, x) for x in nodes)
+        r.check(okdom, "all names and all blockers of all jobs are compared", key_of(cd, "domain"), cd.loc(), f"check_job_dependencies no longer fills `{nset}` with every job's name and `{bset}` with every job's blockers, unconditionally")
     aj = ctx.fn("JobContainerByName.add_job", "C17.4")
     raises_under(aj, lambda f, p: p and f.replace(" ", "") in ("job.nameinself._jobs", "job.namein<JobContainerByName._jobs>"), "a duplicate job name raises", "duplicate name check", "duplicate job names")
     base = ctx.cls(JC)
@@ -252,14 +315,66 @@ def c17_4(ctx, r):
     raises_under(cg, lambda f, p: p and f.replace(" ", "") in ("<SubmissionGroup.name>ingroup_names", "group.nameingroup_names"), "a group listed twice raises", "duplicate group check", "inconsistent group-wide settings")
     raises_under(cg, lambda f, p: (not p) and "hpc_type" in f and "==" in f, "differing hpc_type raises", "hpc_type check", "inconsistent group-wide settings")
     raises_under(cg, lambda f, p: (not p) and f.replace(" ", "") == "this_val==first_val", "a differing must_be_same value raises", "must_be_same check", "inconsistent group-wide settings")
-    okadd = "group_names.add(group.name)" in ctx.src(cg.node) and "for job in self.iter_jobs()" in ctx.src(cg.node)
-    r.check(okadd, "every group name is recorded and every job is examined", key_of(cg, "domain"), cg.loc(), "check_submission_groups no longer records all group names / visits all jobs")
+    gset = None
+    for n in ctx.cfg(cg).nodes:
+        if n.kind == "stmt" and isinstance(n.ast, ast.Raise):
+            for f, p in guard_forms(ctx, cg, n):
+                m = _re.fullmatch(r"(?:<SubmissionGroup\.name>|\w+\.name) in (\w+)", f)
+                if p and m:
+                    gset = m.group(1)
+    okadd = False
+    if gset:
+        for lp in [x for x in iter_own(cg.node) if isinstance(x, ast.For) and render(ctx, cg, x.iter) in ("<JobConfiguration.submission_groups>", "<JobConfiguration._submission_groups>")]:
+            v = ctx.src(lp.target)
+            adds = [c for c in ast.walk(lp) if isinstance(c, ast.Call) and isinstance(c.func, ast.Attribute) and ctx.src(c.func.value) == gset and c.func.attr == "add" and c.args and ctx.src(c.args[0]) == f"{v}.name"]
+            nodes = [x for c in adds for x in ctx.nodes_of(cg, c)]
+            if nodes and not list(iteration_paths(ctx, cg, lp, avoid=nodes)):
+                okadd = True
+    okjobs = any(all_jobs_loop(cg, x) and any(isinstance(y, ast.Raise) for y in ast.walk(x)) for x in iter_own(cg.node) if isinstance(x, ast.For))
+    r.check(okadd and okjobs, "every group name is recorded and every job is examined", key_of(cg, "domain"), cg.loc(), "check_submission_groups no longer records all group names / visits all jobs")
     ct = ctx.fn(f"{JC}.check_job_runtimes", "C17.4")
     raises_under(ct, lambda f, p: p and f.replace(" ", "") == "wall_time<estimate", "an estimate above the group's walltime raises", "runtime check", "an estimated runtime above the walltime")
-    okrt = "wall_times[job.submission_group]" in ctx.src(ct.node) and "timedelta(minutes=job.estimated_run_minutes)" in ctx.src(ct.node) and "x.submitter_params.get_wall_time()" in ctx.src(ct.node)
+    okrt = False
+    for n in ctx.cfg(ct).nodes:
+        if n.kind == "test" and isinstance(n.ast, ast.Compare) and len(n.ast.ops) == 1 and isinstance(n.ast.ops[0], (ast.Gt, ast.Lt)):
+            g = ctx.guards(ct)
+            l, rt = n.ast.left, n.ast.comparators[0]
+            if isinstance(n.ast.ops[0], ast.Lt):
+                l, rt = rt, l
+            est = g.expand(l, n) if isinstance(l, ast.Name) else l
+            wt = g.expand(rt, n) if isinstance(rt, ast.Name) else rt
+            lps = ctx.enclosing(ct, n.ast, (ast.For,))
+            v = ctx.src(lps[0].target) if lps else None
+            ok_est = ctx.src(est).replace(" ", "") == f"timedelta(minutes={v}.estimated_run_minutes)"
+            ok_wt = isinstance(wt, ast.Subscript) and ctx.src(wt.slice) == f"{v}.submission_group" and isinstance(wt.value, ast.Name)
+            if ok_wt:
+                heads = [x for x in ctx.cfg(ct).nodes if x.kind == "for" and lps and x.ast is lps[0]]
+                tbl = g.expand(wt.value, heads[0]) if heads else wt.value
+                ok_wt = isinstance(tbl, ast.DictComp) and ctx.src(tbl.key).endswith(".name") and ctx.src(tbl.value).endswith(".submitter_params.get_wall_time()") and render(ctx, ct, tbl.generators[0].iter) in ("<JobConfiguration.submission_groups>", "<JobConfiguration._submission_groups>")
+            okrt = okrt or (ok_est and ok_wt)
     from .c07 import walltime_parse
 
     walltime_parse(ctx, r, "C17.4")
+    # the scans are complete: no validation loop over the jobs / groups is left early (only a raise ends it), and the
+    # comparisons that raise are not weakened by further conditions on the compared values
+    for vf in (cd, cg, ct):
+        for lp in [n for n in iter_own(vf.node) if isinstance(n, ast.For)]:
+            for end, conds, last in iteration_paths(ctx, vf, lp):
+                if end == "leave":
+                    cdesc = sorted(("" if p else "not ") + f for f, p in conds)
+                    r.bad(key_of(vf, f"validation loop over `{ctx.src(lp.iter)[:30]}` left early under {cdesc}"), vf.loc(last.stmt if last.stmt is not None else lp),
+                          f"{vf.short} stops scanning `{ctx.src(lp.iter)}` under {cdesc}: the entries behind that point are never checked, so an invalid configuration is accepted",
+                          "is rejected with an error before anything is handed to the HPC")
+                else:
+                    r.ok(f"{vf.short}: pass over {ctx.src(lp.iter)[:30]} continues")
+    for n in ctx.cfg(cg).nodes:
+        if n.kind == "stmt" and isinstance(n.ast, ast.Raise):
+            forms = guard_forms(ctx, cg, n)
+            if any((not p) and f.replace(" ", "") == "this_val==first_val" for f, p in forms):
+                extra = sorted(("" if p else "not ") + f for f, p in forms if ("first_val" in f or "this_val" in f) and f.replace(" ", "") not in ("this_val==first_val", "first_val==this_val"))
+                r.check(not extra, "the must_be_same comparison raises whatever the first group's value is", key_of(cg, f"must_be_same also requires {extra}"), cg.loc(n.ast),
+                        f"a differing group-wide setting is rejected only if additionally {extra}: e.g. max_nodes unset in the first group and set in a later one is accepted, and the later limit is silently ignored",
+                        "inconsistent group-wide settings")
     r.check(okrt, "the estimate (minutes) is compared with the job's own group's walltime", key_of(ct, "operands"), ct.loc(), "check_job_runtimes compares different quantities")
 
 
@@ -296,3 +411,10 @@ def c17_6(ctx, r):
                             "loading it back yields the same jobs in the same order with the same names", guards=sorted(("" if p else "not ") + f for f, p in forms))
     if n_st == 0:
         raise AnalysisError("C17.6", "no add_job override assigns a job attribute (expected GenericCommandConfiguration.add_job -> job_id)")
+
+
+@rule(P, "C17.7", "T8", "the dependency check reads the validated model's blocker set (what serialize() writes)", min_obligations=5)
+def c17_7(ctx, r):
+    from .c02 import c02_10
+
+    c02_10(ctx, r)
